@@ -62,6 +62,8 @@ func prePublication(p *Prog, handle *ssa.Function, site ssa.CallInstruction, dep
 
 func runC14(c *Ctx) {
 	p := c.P
+	// clause shared with C03 (see DESIGN.md section 6a)
+	defer c.ImportRules("C03", "C03.13")
 	bpPut := p.MustFunc("(*bufferPool).Put")
 	bpGet := p.MustFunc("(*bufferPool).Get")
 	isPut := func(in ssa.Instruction) (ssa.CallInstruction, ssa.Value, bool) {
